@@ -113,8 +113,11 @@ def rule_single_source(rep, repo, mod):
           for t in node.targets:
             if isinstance(t, ast.Attribute) and t.attr == "qnoise_factor" \
                 and isinstance(t.value, ast.Name) and t.value.id == "self" \
-                and isinstance(node.value, ast.Name) and \
-                node.value.id == "qnoise_factor":
+                and any(isinstance(x, ast.Name) and
+                        x.id == "qnoise_factor"
+                        for x in ast.walk(node.value)):
+              # (stored directly or through an expression of the parameter;
+              # WHICH value is stored is decided by R9 on constants)
               ok = True
     rep.check("qnoise_factor" in params and ok, "R2", unit,
               "ctor-does-not-store-factor",
@@ -1005,12 +1008,62 @@ def rule_scheduler_run(rep, repo, tier):
               "%s: %s" % (cfg, bad), loc=loc, instance=cfg)
 
 
+def rule_constructor_constants(rep, repo, mod, tier, rule="R9"):
+  """The noise factor handed to the CONSTRUCTOR as a plain number - 0, 1/2,
+  1, as a config or a quantizer string spells it - is the factor the call
+  mixes with: F_0 is the documented unquantized surrogate, F_1/2 lies half
+  way between F_0 and F_1, with and without variables.  (R1 decides the same
+  for a symbolic factor; a constructor that tests the truth value of its
+  argument treats 0 differently from every other number.)"""
+  n = 0
+  seen = set()
+  for cls, kw in qref.lattice_all(tier):
+    if cls not in KNOB_CLASSES or "qnoise_factor" not in kw:
+      continue
+    key = (cls, bool(kw.get("use_ste", True)), bool(kw.get("use_variables")))
+    if key in seen:
+      continue
+    seen.add(key)
+    unit = "%s::%s.__init__" % (mod.relpath, cls)
+    built = {}
+    try:
+      for c in (0, F(1, 2), 1):
+        built[c] = quant.build(repo, cls, dict(kw, qnoise_factor=c))
+    except ConfigRejected:
+      continue
+    cfg = "%s(%s)" % (cls, qref.show_kwargs(dict(kw, qnoise_factor="c")))
+    rep.unit(unit)
+    b0 = built[0]
+    loc = b0.pe.loc_of(b0.term)
+    phases = ["infer"] + (["train"] if qref.has_phase(b0.term) else [])
+    for ph in phases:
+      f0, fh, f1 = (Fwd(ph)(built[c].term) for c in (0, F(1, 2), 1))
+      n += 1
+      s_ = Fwd(ph)(qref.surrogate_term(cls, kw))
+      d = same_function(f0, s_, None, None)
+      rep.check(d is None, rule, unit, "constructor-f=0-is-not-the-surrogate",
+                "%s: constructed with qnoise_factor=0 the output is %s, the "
+                "documented unquantized surrogate is %s (%s)" % (
+                    cfg, show(f0, 160), show(s_, 160), d), loc=loc,
+                instance=cfg + " " + ph)
+      rep.check(fh == f0 + NF.const(F(1, 2)) * (f1 - f0), rule, unit,
+                "constructor-constant-not-the-mixing-factor",
+                "%s: constructed with qnoise_factor=1/2 the output is %s, "
+                "half way between the outputs for 0 and 1 is %s" % (
+                    cfg, show(fh, 160), show(
+                        f0 + NF.const(F(1, 2)) * (f1 - f0), 160)), loc=loc,
+                instance=cfg + " " + ph)
+  return n
+
+
 def run(rep, repo, tier):
   mod = repo.module(quant.QMOD)
   if rule_factor_steers_no_python_branch(rep, repo) < 50:
     raise AnalysisError("instance-count branch tests of the quantizer modules")
   rep.trusted.append("tf.Variable(initial_value) holds initial_value; "
                      "Variable.assign(v) stores v (TensorFlow semantics)")
+  if rule_constructor_constants(rep, repo, mod, tier) < 8:
+    raise AnalysisError("instance-count constructor constants")
   rule_mixing(rep, repo, mod, tier)
   rule_single_source(rep, repo, mod)
   rule_schedule(rep, repo)
